@@ -15,7 +15,7 @@ CHECKS = {
             "DESIGN.md section 3 C07"),
     "C01": ("exploration",
             "Hypothesis-generated analytic velocity fields, metrics and time steps; differential of Tracker.update against independent EF/RK2/RK4 references (one step, 1e-9 cell) + observed order of convergence vs a 64x finer reference",
-            "The real Tracker is driven with a plug-in analytic forcing (steady and time-dependent fields, dx != dy, dt 1 s..1 day, displacements up to 0.95 cell) and its one-step result compared with the scheme's prescription incl. the fractional times requested; trajectories at n, 2n, 4n steps must show order >= k-0.5; the analytic helpers get_velocity1/2/4 get the same two oracles. Part 'stock' drives Tracker + the stock ROMS Forcing + the stock ROMS Grid from generated files (fields linear in x and y times a factor piecewise linear in time with its kinks at the frames, over one to four frame intervals of 1-4 steps each, the run starting at or after the first frame, metric varying by cell, subgrids, forward and reversed, optionally a current that varies with depth with particles at different depths and a quarter of the particles switched off) and applies the same one-step identity.",
+            "The real Tracker is driven with a plug-in analytic forcing (steady and time-dependent fields, dx != dy, dt 1 s..1 day, displacements up to 0.95 cell) and its one-step result compared with the scheme's prescription incl. the fractional times requested; trajectories at n, 2n, 4n steps must show order >= k-0.5; the analytic helpers get_velocity1/2/4 get the same two oracles. Part 'stock' drives Tracker + the stock ROMS Forcing + the stock ROMS Grid from generated files (fields linear in x and y times a factor piecewise linear in time with its kinks at the frames, over one to four frame intervals of 1-4 steps each, the run starting at or after the first frame, metric varying by cell, subgrids, forward and reversed, optionally a current that varies with depth with particles at different depths and a quarter of the particles switched off; frames in one or several files, optionally a scalar field read along) and applies the same one-step identity.",
             "Uniform metric per case via a plug-in grid (the stock ROMS grid returns dx for both directions; part 'stock' takes dx of the start cell from the generated file); RK2 may be midpoint or Heun; order check is one-sided and only judged above a 1e-10 noise floor and where an independent implementation of the scheme itself shows its order at the same step counts (asymptotic regime).",
             "DESIGN.md section 3 C01"),
     "C02": ("exploration",
@@ -30,12 +30,12 @@ CHECKS = {
             "DESIGN.md section 3 C03"),
     "C04": ("exploration",
             "Hypothesis-generated release tables and windows; differential of the State after every release step against a reference release schedule",
-            "Tables (several times x rows, mult 0..5 or absent, rows before/in/at/after the window, extra int/float/time columns as instance or particle variables, header or names, column permutations, timestamp spellings, X/Y or lon/lat, discrete or continuous, forward or reversed) are read by the real ParticleReleaser; after each timer.update(); release.update() the newly appended particles must be exactly the scheduled rows repeated mult times, in file-row order, with their positions, extras and release time; in half of the cases some particles die between releases and stay in the state; a third of the X/Y tables also carry lon/lat columns that point elsewhere (X, Y wins, as documented); the release frequency is written in any accepted period spelling. Part 'warm' runs ladim.main warm-started from a drawn file boundary of a split run with a recording release plug-in: nothing is released at the restart time, every later row / tick enters at its own step and position with the next pids.",
+            "Tables (several times x rows, mult 0..5 or absent, rows before/in/at/after the window, extra int/float/time columns as instance or particle variables, header or names, column permutations, timestamp spellings, X/Y or lon/lat, discrete or continuous, forward or reversed) are read by the real ParticleReleaser; after each timer.update(); release.update() the newly appended particles must be exactly the scheduled rows repeated mult times, in file-row order, with their positions, extras and release time; in half of the cases some particles die between releases and stay in the state; a third of the X/Y tables also carry lon/lat columns that point elsewhere (X, Y wins, as documented); the release frequency is written in any accepted period spelling; extra columns may have configured defaults (the row's value wins). Part 'warm' runs ladim.main warm-started from a drawn file boundary of a split run with a recording release plug-in: nothing is released at the restart time, every later row / tick enters at its own step and position with the next pids.",
             "Times on the model grid, table sorted in simulation order, continuous file times on the tick grid (the property's quantifier); text->float parsing tolerance 1e-13.",
             "DESIGN.md section 3 C04"),
     "C05": ("exploration",
             "exhaustive enumeration of operation sequences up to a bound + Hypothesis-generated longer sequences against a list-of-records model; pid laws on output records of generated end-to-end runs",
-            "All sequences up to length 5 (quick) / 7 (thorough) over an 11-operation alphabet on ladim.state.State are compared with a reference model after every operation (complete within that bound); longer parametrised sequences (incl. kills by integer 0/1 array or list and assignments of arrays of another dtype) are generated; generated end-to-end runs are read back and every record checked for strictly increasing pid and pid[k] >= k; the same for runs warm-started from a drawn file boundary, where in addition no new particle may get an identifier that was in use before the restart.",
+            "All sequences up to length 5 (quick) / 7 (thorough) over an 11-operation alphabet on ladim.state.State are compared with a reference model after every operation (complete within that bound); longer parametrised sequences (incl. kills by integer 0/1 array or list and assignments of arrays of another dtype) are generated; generated end-to-end runs are read back and every record checked for strictly increasing pid and pid[k] >= k; the same for runs warm-started from a drawn file boundary, where in addition no new particle may get an identifier that was in use before the restart; per-particle values are present at index pid in every file and equal across files.",
             "Assigned arrays respect State's size contract (same length); the model is the reading of the property text in checks/c05.py.",
             "DESIGN.md section 3 C05"),
     "C06": ("exploration",
@@ -90,7 +90,7 @@ CHECKS = {
             "DESIGN.md section 3 C18"),
     "C19": ("exploration",
             "Hypothesis-generated run lengths, periods, plug-in spellings and cold/warm starts; call-log grammar + state snapshots from recording plug-ins in every module slot",
-            "A recording module (thin subclasses of the stock Grid, Forcing, ParticleReleaser, Tracker, Output and a scripted IBM) is installed in any subset of the six slots under a generated spelling (absolute path with/without .py, relative path, bare name in the working directory with a same-named decoy on sys.path, module name on sys.path); the update calls must follow release, forcing, output, tracker, ibm once per step (plus the output-less catch-up step of a warm start), snapshots taken inside the calls must be consistent with that order, kills take effect from the next record, close is called once per module, the decoy never runs, and - plug-in files of different slots may share one file name in different directories - every logged call comes from the file configured for its slot; the first release may come some steps after the start (the model steps with an empty state) and the scalar forcing value in every record must be the one of the frame in force at the record's time. Inside every call the model clock a plug-in can read must be the time of that step (also in the warm start's catch-up step). Part 'legacy': a version-1 file naming a recording IBM by path, with or without a variables list.",
+            "A recording module (thin subclasses of the stock Grid, Forcing, ParticleReleaser, Tracker, Output and a scripted IBM) is installed in any subset of the six slots under a generated spelling (absolute path with/without .py, relative path, bare name in the working directory with a same-named decoy on sys.path, module name on sys.path); the update calls must follow release, forcing, output, tracker, ibm once per step (plus the output-less catch-up step of a warm start), snapshots taken inside the calls must be consistent with that order, kills take effect from the next record and are never undone in any later call or record, close is called once per module, the decoy never runs, and - plug-in files of different slots may share one file name in different directories - every logged call comes from the file configured for its slot; the first release may come some steps after the start (the model steps with an empty state) and the scalar forcing value in every record must be the one of the frame in force at the record's time. Inside every call the model clock a plug-in can read must be the time of that step (also in the warm start's catch-up step). Part 'legacy': a version-1 file naming a recording IBM by path, with or without a variables list.",
             "Recording classes log and delegate to the stock implementation.",
             "DESIGN.md section 3 C19"),
     "C20": ("fault_enumeration",
